@@ -11,10 +11,14 @@ import util
 from framework import pmap
 
 ID = 'C01'
-LEAN_MODULES = ['Pfst.Props.C01']
-LEAN_DEPS = ['Pfst.Edit', 'Pfst.EditLemmas']
+LEAN_MODULES = ['Pfst.Props.C01', 'Pfst.Props.C01b']
+LEAN_DEPS = ['Pfst.Edit', 'Pfst.EditLemmas', 'Pfst.Sep', 'Pfst.SepLemmas', 'Pfst.Drv.C01b']
 THEOREMS = ['Pfst.C01.text_before', 'Pfst.C01.text_after', 'Pfst.C01.text_new', 'Pfst.C01.replace_wf', 'Pfst.C01.steps_wf',
             'Pfst.C01.refused_identity']
+# separator / delimiter primitives (`_trail_sep`, `_maybe_ins_sep`, `_fix_Tuple`): lean/Pfst/Props/C01b.lean, harness/c01b.py
+THEOREMS += ['Pfst.C01b.target_iff', 'Pfst.C01b.trailSep_spec', 'Pfst.C01b.trailSep_none', 'Pfst.C01b.trailSep_del_local',
+             'Pfst.C01b.maybeInsSep_post', 'Pfst.C01b.maybeInsSep_local', 'Pfst.C01b.fixTuple_singleton',
+             'Pfst.C01b.fixTuple_delimited', 'Pfst.C01b.fixTuple_delimits_partial', 'Pfst.C01b.fixTuple_empty']
 RULE = ('a FIXED corpus of programs (hand-written snippets covering every node type + generated programs + layout mutators; '
         'independent of VERIF_SEED so that the unchanged tree is triaged once) is edited by seed-determined histories of '
         'structured edits: replace / attribute assignment / remove / cut / del item / insert / append / put_slice / view slice '
@@ -23,7 +27,13 @@ RULE = ('a FIXED corpus of programs (hand-written snippets covering every node t
         'positions (CPython is the judge). For single-node replacements the Lean model (1-D splice + sub-tree replacement) '
         'predicts the position of every other node and is compared with pfst; the proved well-formedness checker wfT is run '
         'on pfst\'s post-state. distinct = distinct (program, step); non-trivial = the edit succeeded and changed the source')
-TRUSTED = ['modelled: the document-level shape of a single-node replacement (text splice + sub-tree replacement + offsetting), '
+TRUSTED = ['modelled (C01b, Pfst/Sep.lean, tied by harness/c01b.py): FST._trail_sep, _maybe_ins_sep, _is_delimited_seq, '
+           '_maybe_add_singleton_comma, _fix_Tuple / _fix_undelimited_seq / _delimit_node (source effect; tree decisions '
+           '"enclosed by parents / unparenthesised NamedExpr" and element pars() are inputs), _fix_joined_alnums (\\w for '
+           'non-ASCII characters is an input from Python re), the per-line rewrite of _maybe_add_line_continuations; proved: '
+           'what _trail_sep finds and deletes, what _maybe_ins_sep inserts, that it is idempotent, the singleton comma. The '
+           'node offsetting these functions trigger is C11\'s model; here it is judged by ast.parse on the post-state',
+           'modelled: the document-level shape of a single-node replacement (text splice + sub-tree replacement + offsetting), '
            'see Pfst/Edit.lean; C04 models _put_src, C11 _offset, C09 the parenthesisation decision',
            'NOT modelled: the ~90 individual _put_one_* handlers, fst_put_slice.py / slice_exprlike.py / slice_stmtlike.py '
            'separator, delimiter, indentation and trivia editing: reached only by the CPython-judged sweep (sampling, not proof)']
@@ -245,6 +255,12 @@ def _model_case(before_lines, before_ast_tree, tpath, after_lines, after_ast, af
     return case, exp
 
 
+def correspondence(ctx):
+    """separator / delimiter primitives (`_trail_sep`, `_maybe_ins_sep`, `_fix_Tuple`, ...): Lean models vs the real functions"""
+    import c01b
+    c01b.correspondence_c01b(ctx)
+
+
 def sweep(ctx):
     q = ctx.tier == 'quick'
     nprog = 400 if q else 3000
@@ -333,6 +349,9 @@ def replay(ctx, data):
     w = data.get('witness')
     if not w:
         return
+    if 'history' not in w:          # a witness of the separator / delimiter correspondence
+        import c01b
+        return c01b.replay_c01b(ctx, data)
     root = FST(w['src'], 'exec')
     for rec in w['history']:
         edits.apply_edit(root, rec)
